@@ -439,6 +439,8 @@ pub fn ehdr_sets() -> Vec<Vec<(String, Vec<u8>)>> {
         vec![("content-type".into(), b"text/plain".to_vec())],
         vec![("content-type".into(), b"application/octet-stream".to_vec()), ("x-ent-a".into(), vec![b'v'; 1])],
         vec![("x-long".into(), vec![b'z'; 200]), ("content-language".into(), b"en".to_vec()), ("x-ent-b".into(), b"two words".to_vec())],
+        // a multi-valued header name (HeaderMap::append twice, another name in between)
+        vec![("vary".into(), b"accept-encoding".to_vec()), ("cache-control".into(), b"max-age=3600".to_vec()), ("vary".into(), b"accept-language".to_vec())],
     ]
 }
 
